@@ -449,3 +449,66 @@ def _(self, decoder: Obj("Decoder")) -> Bytes:
                     len(result) == self.minimum
                     and decoder.number_of_bits == old(decoder.number_of_bits) - old(decoder.number_of_bits) % 8
                     - 8 * self.minimum))
+
+
+fields("BitString", minimum=Union(Int, Lit('MIN'), NoneT), maximum=Union(Int, Lit('MAX'), NoneT),
+       has_extension_marker=Bool, number_of_bits=Opt(Nat), has_named_bits=Bool)
+invariant("BitString", implies(self.number_of_bits is not None,
+                               py_is_int(self.minimum) and py_is_int(self.maximum) and 0 <= self.minimum
+                               and self.minimum <= self.maximum and self.maximum <= 65535
+                               and self.number_of_bits == blen(self.maximum - self.minimum)))
+
+
+@contract("asn1tools/codecs/compiler.py", "rstrip_bit_string_zeros", abstract=True)
+def _(data: ByteArray) -> Tup(ByteArray, Nat):
+    # assumed (bytes.rstrip is not modelled): trailing zero octets and bits removed
+    ensures(len(result[0]) <= len(data) and result[1] <= 8 * len(result[0]) and result[1] > 8 * len(result[0]) - 8)
+
+
+@contract("BitString.rstrip_zeros", props=["C05", "C01", "C12"])
+def _(self, data: Bytes, number_of_bits: Nat) -> Tup(ByteArray, Nat):
+    # named bits: trailing zero bits are removed, but never below a finite lower size bound (X.691 16.2/16.3); an open
+    # lower bound (None / 'MIN') is no bound -- never a TypeError (F26)
+    requires(self.minimum is None or self.minimum == 'MIN' or (0 <= self.minimum and self.minimum <= 65535))
+    ensures(implies(py_is_int(self.minimum), result[1] >= self.minimum))
+    ensures(result[1] <= 8 * len(result[0]))
+
+
+@contract("BitString.encode_unbound", abstract=True)
+def _(self, data: Bytes, number_of_bits: Nat, encoder: Obj("Encoder")):
+    # assumed (generator based fragment loop, outside the subset): only appends
+    assigns(encoder)
+    ensures(encoder.chunks_number_of_bits + encoder.number_of_bits
+            >= old(encoder.chunks_number_of_bits) + old(encoder.number_of_bits))
+
+
+@contract("Encoder.append_bits", props=["C05", "C01"])
+def _(self, data: Bytes, number_of_bits: Nat):
+    # the first number_of_bits bits of data (most significant first)
+    requires(number_of_bits <= 8 * len(data) and self.number_of_bits <= 4096)
+    use(be_val_bound(data))
+    use(shift_bound(be_val(list(data)), 8 * len(data) - number_of_bits, number_of_bits))
+    assigns(self)
+    ensures(self.number_of_bits == old(self.number_of_bits) + number_of_bits)
+    ensures(self.chunks_number_of_bits == old(self.chunks_number_of_bits))
+    ensures(self.value == old(self.value) * pow2(number_of_bits) + be_val(list(data)) // pow2(8 * len(data) - number_of_bits))
+
+
+@contract("BitString.decode", props=["C05", "C01", "C16", "C08"], label="aligned")
+def _(self, decoder: Obj("Decoder")) -> Tup(Bytes, Nat):
+    # X.691 16 (aligned): a fixed size of at most 16 bits is a plain bit field, a larger fixed size is octet aligned;
+    # a bounded size is the count as a constrained whole number, then the octet-aligned bits; every read is checked
+    raises(OutOfDataError)
+    raises(DecodeError)
+    raises(NotImplementedError)
+    assigns(decoder)
+    ensures(decoder.number_of_bits <= old(decoder.number_of_bits) and decoder.value == old(decoder.value))
+    ensures(implies(not self.has_extension_marker and self.number_of_bits is not None and self.minimum == self.maximum
+                    and self.minimum <= 16,
+                    result[1] == self.minimum
+                    and decoder.number_of_bits == old(decoder.number_of_bits) - self.minimum))
+    ensures(implies(not self.has_extension_marker and self.number_of_bits is not None and self.minimum == self.maximum
+                    and self.minimum > 16,
+                    result[1] == self.minimum
+                    and decoder.number_of_bits == old(decoder.number_of_bits) - old(decoder.number_of_bits) % 8
+                    - self.minimum))
